@@ -22,6 +22,7 @@ class Env:
 
     def __init__(self, faults=(), interrupts=()):
         self.interrupts = set(interrupts)   # OS call numbers at which a KeyboardInterrupt arrives instead
+        self.abandon = False                # a would-block-for-ever abandonment is propagating
         self.vt = 0.0
         self.cur = 0                    # logical thread executing the current operation
         self.ncall = 0
@@ -104,6 +105,10 @@ class OsProxy(types.ModuleType):
 
     @staticmethod
     def close(fd):
+        if ENV.abandon:
+            _os.close(fd)
+            ENV.open_fds.discard(fd)
+            return
         fail = ENV.oscall('close')
         _os.close(fd)                      # a close that reports an error has still closed the descriptor
         ENV.open_fds.discard(fd)
@@ -129,7 +134,9 @@ class FcntlProxy(types.ModuleType):
             return _fcntl.flock(fd, op | _fcntl.LOCK_NB)
         except OSError:
             # the real call would block in the kernel for ever: the attempt is abandoned (run_seq closes whatever
-            # descriptor the abandoned attempt leaves open)
+            # descriptor the abandoned attempt leaves open; clean-up calls made while the abandonment propagates
+            # are not numbered and take no injected fault - in reality they never happen)
+            ENV.abandon = True
             raise WouldBlock('flock')
 
 
@@ -257,6 +264,7 @@ def run_seq(reent, faults, ops, workdir, expand=False, ctor=None, interrupts=())
                     res = 'U' if r is None else repr(r)
             except WouldBlock:
                 res = 'B'
+                env.abandon = False
                 env.ncall = n0                 # the abandoned call does not count (the model leaves the state)
                 del env.calls[n0:]
                 env.vt = t0
